@@ -35,7 +35,7 @@ class Audit(object):
             for a in args[:2]:
                 if isinstance(a, (str, bytes)):
                     s = a.decode("utf-8", "replace") if isinstance(a, bytes) else a
-                    if s.startswith(cls.root):
+                    if s.startswith(cls.root) or (s.startswith("file:") and cls.root in s):
                         hit = True
                 elif isinstance(a, int) and event in ("os.chmod", "os.truncate"):
                     hit = True
